@@ -282,6 +282,11 @@ def gen_world(rng, *, convs=CONVS, max_n=5, max_faces=10, max_vars=5, allow_hole
         if allow_holes and bounds and ny * nx >= 4 and rng.random() < 0.4:
             k = rng.randint(1, max(1, ny * nx // 4))
             holes = sorted(rng.sample(range(ny * nx), k))
+        elif allow_holes and not bounds and ny >= 3 and nx >= 3 and rng.random() < 0.35:
+            # no bounds variables and cells without coordinates (land in a curvilinear river grid): emsarray derives the
+            # cell edges from the neighbouring centres, which cells get a polygon is its own rule (not judged here)
+            k = rng.randint(1, max(1, ny * nx // 3))
+            holes = sorted(rng.sample(range(ny * nx), k))
         if conv == 'shoc_simple':
             ydim, xdim = 'j', 'i'
             yvar, xvar = rng.choice([('latitude', 'longitude'), ('y_centre', 'x_centre')])
